@@ -2,7 +2,7 @@
 import os, re
 
 # default (time cap seconds, address-space cap GB) per tier
-DEFAULT_CAPS = {"quick": (240, 12), "thorough": (1500, 14)}
+DEFAULT_CAPS = {"quick": (360, 12), "thorough": (1500, 14)}
 
 PROPS = {}
 
